@@ -20,7 +20,18 @@ TrRemoteEnc ==
     /\ Chk("C20", "schema_describes_the_single_member_addr", l, E.schema_props = <<"addr">> /\ E.schema_required = <<"addr">>)
     /\ schema0' = IF schema0 = <<>> THEN [name |-> E.schema_name, props |-> E.schema_props, required |-> E.schema_required] ELSE schema0
     /\ l' = l + 1 /\ TLCSet(1, l + 1)
-TSpec == TInit /\ [][TrRemoteEnc]_tvars
+(* the schema of a state holding handles of every kind, generated in one run *)
+TrRemoteStore ==
+    /\ l <= Len(Rec) /\ E.ev = "RemoteStore"
+    /\ Chk("C20", "handles_of_all_kinds_share_one_schema_definition", l,
+           /\ Len(E.refs) = E.fields
+           /\ \A i, j \in 1..Len(E.refs) : E.refs[i] = E.refs[j])
+    /\ Chk("C20", "that_definition_has_the_type_independent_schema_name", l,
+           schema0 # <<>> => (\A i \in 1..Len(E.refs) : E.refs[i] = "#/definitions/" \o schema0.name)
+                             /\ (\E i \in 1..Len(E.defs) : E.defs[i] = schema0.name))
+    /\ l' = l + 1 /\ TLCSet(1, l + 1)
+    /\ UNCHANGED <<h, stage, enc, back, schema0>>
+TSpec == TInit /\ [][TrRemoteEnc \/ TrRemoteStore]_tvars
 TraceAccepted ==
     LET reached == TLCGet(1) IN
     IF reached = Len(Rec) + 1 THEN TRUE ELSE Print(<<"UNMATCHED", reached, Rec[reached]>>, FALSE)
